@@ -10,7 +10,7 @@ from typing import Dict, List, Optional, Set
 
 from ..program import AnalysisError, FunctionInfo, fn_nodes, norm
 from ..cfg import cfg_of
-from .common import resolve_all, find_local, JWE_CONSUME, JWE_PRODUCE, can_reach_exit, const_value, entries, impls, is_const, scope_of, sites_calling, succ_by_label
+from .common import misguarded_member_stores, resolve_all, find_local, JWE_CONSUME, JWE_PRODUCE, can_reach_exit, const_value, entries, impls, is_const, scope_of, sites_calling, succ_by_label
 
 RFC7516_TOP = {"protected", "unprotected", "iv", "aad", "ciphertext", "tag"}
 RFC7516_RCP = {"header", "encrypted_key"}
@@ -189,6 +189,13 @@ def r04_3(ctx) -> None:
                   construct=f"{kind} JSON writer members")
         ctx.check(read == want, "R04.3", ext, ext.node, f"{kind} JSON reader members", f"{kind} JSON reader consumes {sorted(read)}; the writer emits {sorted(written)}", f"= {sorted(want)}",
                   construct=f"{kind} JSON reader members")
+    # optional members are written when (not unless) their value is present
+    nst = 0
+    for h in (f("represent_general_json"), f("represent_flattened_json"), rep_common):
+        nst += 1
+        bad = misguarded_member_stores(eng, h)
+        ctx.check(not bad, "R04.3", h, bad[0][0] if bad else h.node, f"{h.short} :: optional members", f"JSON writer: {bad[0][1] if bad else ''}", "if value: data[member] = value",
+                  construct=f"optional member guards in {h.name}")
     # compact: five segments in the order header, encrypted key, iv, ciphertext, tag
     C_ = P.mod("rfc7516.compact")
     rep = [fn for fn in C_.functions if fn.name == "represent_compact"][0]
